@@ -641,12 +641,12 @@ package prunner
 // Mapping of obligations to the fixed property ids (glob patterns on obligation names)
 //
 //@ property C01: prunner.(*PipelineJob).isRunning/ensures* prunner.(*PipelineRunner).runningJobsCount/ensures* prunner.(*PipelineRunner).runningJobsCount/loop* prunner.*/ensures[C01.*] prunner.*/call-pre[(*PipelineRunner).startJob.slotFree]* prunner.*/call-pre[(*PipelineRunner).startJob.notStarted]* prunner.*/call-pre[(*PipelineRunner).startJob.offList]* prunner.*/ensures[T] prunner.*/loop*/inv-*[T] prunner.*/monitor[RI] prunner.*/ensures[ri] prunner.*/call-pre[*.ri]* prunner.*/loop*/inv-*[ri] prunner.*/assert[C01.*] prunner.*/assert[cnt*] lemma/cntFrame* prunner/writers[PipelineJob.Start] prunner/writers[PipelineJob.Completed] prunner/writers[PipelineJob.Canceled] prunner.*/call-pre[(*PipelineRunner).startJob$1.token]* prunner.(*PipelineRunner).startJobsOnWaitList/* prunner.(*PipelineRunner).startJob/* prunner.(*PipelineRunner).cancelJobInternal/* prunner.removeJobFromWaitList/* prunner.*/safety prunner.*/guarantee[T] prunner.*/ensures[C12.keepLive] prunner.(*PipelineRunner).SaveToStore/*[C01.listKeepsLive]
-//@ property C03: prunner.*/ensures[C03.*] prunner.*/monitor[RI] prunner.*/ensures[ri] prunner.*/call-pre[*.ri]* prunner.*/loop*/inv-*[ri] prunner.(*PipelineRunner).startJobsOnWaitList/loop* prunner.(*PipelineRunner).startJob/ensures[skipCanceled] prunner.removeJobFromWaitList/* prunner.*/ensures[C05.offList] prunner.*/ensures[C16.defsOnly] prunner.(*PipelineRunner).startJobsOnWaitList/* prunner.(*PipelineRunner).startJob/* prunner.(*PipelineRunner).cancelJobInternal/* prunner.removeJobFromWaitList/* prunner.*/ensures[C12.keepLive] prunner.(*PipelineRunner).SaveToStore/loop* prunner.*/safety
+//@ property C03: prunner.*/ensures[C03.*] prunner.*/monitor[RI] prunner.*/ensures[ri] prunner.*/call-pre[*.ri]* prunner.*/loop*/inv-*[ri] prunner.(*PipelineRunner).startJobsOnWaitList/loop* prunner.(*PipelineRunner).startJob/ensures[skipCanceled] prunner.removeJobFromWaitList/* prunner.*/ensures[C05.offList] prunner.*/ensures[C16.defsOnly] prunner.(*PipelineRunner).startJobsOnWaitList/* prunner.(*PipelineRunner).startJob/* prunner.(*PipelineRunner).cancelJobInternal/* prunner.removeJobFromWaitList/* prunner.*/ensures[C12.keepLive] prunner.(*PipelineRunner).SaveToStore/loop* prunner.*/safety prunner.(*PipelineRunner).runningJobsCount/*
 //@ property C04: prunner.*/assert[C04.*] prunner.*/ensures[C04.*] prunner.(*PipelineRunner).startJob/ensures[skipCanceled] prunner.*/ensures[T] prunner.(*PipelineJob).markAsCanceled/* prunner.*/call-pre[(*PipelineRunner).startJob.*]* prunner/writers[PipelineJob.Canceled] prunner.*/monitor[RI] prunner.*/guarantee[T] prunner/writers[PipelineJob.cancelRequested]
 //@ property C05: prunner.*/ensures[C05.*] prunner.*/monitor[RI] prunner.*/ensures[ri] prunner.*/call-pre[*.ri]* prunner.*/loop*/inv-*[ri] prunner.removeJobFromWaitList/* prunner.(*PipelineRunner).runningJobsCount/* prunner.*/ensures[C15.reject] prunner.*/ensures[C15.accept] lemma/cntFrame* prunner.*/loop*/inv-*[others] prunner.*/loop*/inv-*[mine] prunner.*/loop*/inv-*[purged] prunner.(*PipelineRunner).startJobsOnWaitList/* prunner.(*PipelineRunner).startJob/* prunner.(*PipelineRunner).cancelJobInternal/* prunner.removeJobFromWaitList/* prunner.*/safety prunner.*/assert[wl*] prunner.*/assert[dist*]
 //@ property C06: prunner.*/ensures[C06.*] prunner.(*PipelineRunner).ScheduleAsync/ensures[C05.queue] prunner.(*PipelineRunner).ScheduleAsync/ensures[C05.replace] prunner.(*PipelineRunner).ScheduleAsync/ensures[C05.start] prunner.(*PipelineRunner).startJobsOnWaitList/loop* prunner.*/call-pre[(*PipelineRunner).startJob.offList]* prunner.removeJobFromWaitList/* prunner.*/monitor[RI] prunner.*/ensures[C12.waitLists] prunner.(*PipelineRunner).startJobsOnWaitList/* prunner.(*PipelineRunner).startJob/* prunner.(*PipelineRunner).cancelJobInternal/* prunner.removeJobFromWaitList/* prunner.*/ensures[T] prunner.*/ensures[ri] prunner.*/call-pre[*.ri]* prunner.*/ensures[C12.keepLive]
 //@ property C07: prunner.*/ensures[C07.*] prunner.*/call-pre[(*PipelineRunner).startJob.timerDone]* prunner.*/ensures[C03.timerTruth] prunner.*/ensures[C03.progress] prunner.(*PipelineRunner).ScheduleAsync/ensures[C05.replace] prunner.(*PipelineRunner).startJob/ensures[skipCanceled] prunner.(*PipelineRunner).resolveDequeueJobAction/ensures* prunner/writers[PipelineJob.startTimer] prunner/writers[PipelineJob.StartDelay] prunner.*/monitor[RI] prunner.*/ensures[ri] prunner.*/call-pre[*.ri]* prunner/writers[PipelineJob.Created] prunner/writers[PipelineJob.Start]
-//@ property C10: prunner.*/ensures[C10.*] prunner.(*PipelineRunner).initialLoadFromStore/loop* prunner.buildJobFromPersistedJob/* helper.*/ensures* store/globalinit[json] store.(*JsonDataStore).Load/ensures[C09.load] prunner.*/assert[C10.*] prunner.(*PipelineJob).isRunning/ensures* prunner.(*PipelineRunner).SaveToStore/loop3/* prunner.(*PipelineRunner).SaveToStore/loop4/* lemma/cntZero* prunner.(*PipelineRunner).initialLoadFromStore/ensures* store.(*JsonDataStore).Save/* prunner.(*PipelineRunner).SaveToStore/*[C10.complete] prunner.(*PipelineRunner).initialLoadFromStore/*[C10.listedEach]
+//@ property C10: prunner.*/ensures[C10.*] prunner.(*PipelineRunner).initialLoadFromStore/loop* prunner.buildJobFromPersistedJob/* helper.*/ensures* store/globalinit[json] store.(*JsonDataStore).Load/ensures[C09.load] prunner.*/assert[C10.*] prunner.(*PipelineJob).isRunning/ensures* prunner.(*PipelineRunner).SaveToStore/loop3/* prunner.(*PipelineRunner).SaveToStore/loop4/* lemma/cntZero* prunner.(*PipelineRunner).initialLoadFromStore/ensures* store.(*JsonDataStore).Save/* prunner.(*PipelineRunner).SaveToStore/*[C10.complete] prunner.(*PipelineRunner).initialLoadFromStore/*[C10.listedEach] prunner.(*PipelineRunner).runningJobsCount/*
 //@ property C11: prunner.*/ensures[C11.*] prunner.*/assert[C11.*] prunner.(*PipelineRunner).Shutdown/loop* prunner.(*PipelineRunner).Shutdown/monitor[RI] prunner.(*PipelineRunner).Shutdown/ensures[T] prunner.(*PipelineRunner).Shutdown$1/* prunner/writers[PipelineRunner.isShuttingDown] prunner.*/guarantee[gate] prunner.(*PipelineRunner).Shutdown/guarantee[T] prunner/interference[captured] prunner.(*PipelineRunner).Shutdown$1/frame* prunner.*/guarantee[noStart] prunner.*/guarantee[noNew] prunner.*/monitor[RI] prunner.*/ensures[ri] prunner.*/call-pre[*.ri]* prunner.(*PipelineRunner).startJobsOnWaitList/*[C11.*] prunner.(*PipelineRunner).SaveToStore/loop*[C11.noNew]
 //@ property C12: prunner.*/ensures[C12.*] prunner.(*PipelineRunner).SaveToStore/* prunner.removeJobFromList/* prunner.byCreationTimeDesc/ensures* prunner.*/assert[dist*] prunner.*/monitor[RI] prunner.(*PipelineRunner).determineIfJobShouldBeRemoved/* prunner.*/assert[wl*] prunner.(*PipelineRunner).initialLoadFromStore/*[C10.noLoss] prunner.(*PipelineRunner).SaveToStore/*[C01.listKeepsLive] prunner.(*PipelineRunner).initialLoadFromStore/*[C10.listedEach]
 //@ property C13: prunner.*/lock[read] prunner.*/lock[write] prunner.*/lockproto[*] prunner.*/call-pre[*.lockmode]* prunner.*/call-pre[*.guard]* prunner.*/call-pre[*.empty]* prunner.*/ensures[unpublished] prunner/interference[captured] prunner.*/guarantee[*]
